@@ -38,6 +38,25 @@ class EnvAdapter:
     def make(self, cfg):
         raise NotImplementedError
 
+    # generator-heavy companions (C10: "for every reset key"): {config id: (resets in the quick tier, in the thorough tier)}.
+    # For each named configuration a second one is derived that only resets (no steps, no probes) that many times and is
+    # judged by C10 alone - low-probability generator defects (two entities on one cell for 1 key in 100) need many keys.
+    gen_heavy = {}
+
+    def all_configs(self, tier):
+        out = list(self.configs(tier))
+        by_id = {c["id"]: c for c in out}
+        if not self.gen_heavy:
+            return out
+        q = self.configs("quick") if tier != "quick" else out
+        for c in q:
+            by_id.setdefault(c["id"], c)
+        for cid, (nq, nt) in self.gen_heavy.items():
+            if cid in by_id and "C10" in self.props:
+                out.append(dict(by_id[cid], id=cid + "_gen", episodes=nq if tier == "quick" else nt, max_steps=0, probe_every=0,
+                                policies=["random"], props=["C10"]))
+        return out
+
     def cfg_record(self, cfg, env):
         """The TLA+ Cfg record (JSON)."""
         return dict(cfg.get("ctor", {}))
